@@ -40,6 +40,7 @@ Gen<Case> makeGraphGen(const Cfg &cfg) {
     int ringPct = (int)cfgInt(cfg, "ring_pct", 0); // percentage of cases with 150..200 vertices each joined to the next 40..60 (thousands of edges)
     int sets = (int)cfgInt(cfg, "sets", 0); // percentage of `w` entries (value set through setEdgeWeight / setEdgeMultiplicity / setEdgeLabel) among the edge ops
     bool fresh = cfgInt(cfg, "fresh", 0) != 0; // every case in a forked child, several classes in a generated order
+    int via = (int)cfgInt(cfg, "via", 0); // C11/C12: percentage of cases whose searched object is a copy, a container-constructor rebuild or a moved-to object
     int prefill = (int)cfgInt(cfg, "prefill", 0); // C13/C14 round trips: percentage of cases whose output path already holds a file (junk or well-formed)
     int forced = (int)cfgInt(cfg, "forced", 0); // percentage of forced (duplicate-creating) adds // percentage of `r` (removeEdge) entries among the edge ops
     return gen::exec([=]() {
@@ -77,6 +78,8 @@ Gen<Case> makeGraphGen(const Cfg &cfg) {
             c.set("orderkey", S(*uni(0, 50)));
             c.set("churn", S(*wel({{8, 0}, {3, 40}, {2, 300}, {2, 20000}, {1, 70000}})));
         }
+        if (via > 0 && *uni(0, 100) < via)
+            c.set("via", S(*uni(1, 4)));
         if (prefill > 0 && *uni(0, 100) < prefill)
             c.set("prefill", S(*uni(1, 4)));
         if (pads && *uni(0, 4) == 0) {
